@@ -17,6 +17,8 @@ Val == [ neg1   |-> Amt(TRUE, 0, 0, 1),
          maxp1  |-> Amt(FALSE, 0, 21000000, 1),
          half   |-> Amt(FALSE, 0, 10500000, 0),
          halfp1 |-> Amt(FALSE, 0, 10500000, 1),
+         wrap0  |-> Amt(FALSE, 0, 3440737, 9551616),      \* 344073709551616 = 2^64 - 8784 * MaxMoney
+         wrap1  |-> Amt(FALSE, 0, 3440737, 9551617),
          i64max |-> I64Max,
          i64min |-> I64Min ]
 ValNames == DOMAIN Val
@@ -84,15 +86,23 @@ FirstViolated(ins, outs, size, cbLen) ==
   ELSE IF IsCoinBase(ins) THEN (IF cbLen < 2 \/ cbLen > 100 THEN "bad-cb-length" ELSE "ok")
   ELSE IF HasNull(ins) THEN "bad-txns-prevout-null" ELSE "ok"
 
-VARIABLES ins, outs, size, cbLen, res
-vars == <<ins, outs, size, cbLen, res>>
+\* bulk rows: `bulk` additional outputs of exactly MaxMoney placed BEFORE the listed outputs (2 or more exceed the total at the
+\* second one). The counts are chosen so that a wrapping 64-bit accumulator would see 2^63 crossed (4393), or the total back inside
+\* the money range (8784 with the residue output "wrap0" / "wrap1": 8784 * MaxMoney + 344073709551616 = 2^64)
+BulkCounts == {0, 1, 2, 4392, 4393, 8783, 8784, 8785}
+\* what the rule list sees: at most the first two bulk outputs matter (the second one already exceeds the total)
+Eff(o, b) == (IF b = 0 THEN <<>> ELSE IF b = 1 THEN <<"max">> ELSE <<"max", "max">>) \o o
+VARIABLES ins, outs, size, cbLen, res, bulk
+vars == <<ins, outs, size, cbLen, res, bulk>>
 Init == /\ ins \in UNION {[1..k -> Prevouts] : k \in 0..MaxIn}
         /\ outs \in UNION {[1..k -> ValNames] : k \in 0..MaxOut}
         /\ size \in SizeClasses /\ cbLen \in CbLens
         /\ Realisable(ins, outs, size, cbLen)
-        /\ res = Check(ins, outs, size, cbLen)
+        /\ bulk \in BulkCounts
+        /\ (bulk > 0 => (size = "small" /\ Len(ins) = 1 /\ ins[1] = 1 /\ Len(outs) <= 1 /\ \A k \in 1..Len(outs) : outs[k] \in {"zero", "one", "wrap0", "wrap1", "max"}))
+        /\ res = Check(ins, Eff(outs, bulk), size, cbLen)
 Next == UNCHANGED vars
-Agree == (res = "ok") <=> SpecValid(ins, outs, size, cbLen)
-ReasonIsFirstViolated == res = FirstViolated(ins, outs, size, cbLen)
-EmitRow == VFRow([ins |-> ins, outs |-> [i \in 1..Len(outs) |-> Val[outs[i]]], size |-> size, cbLen |-> cbLen, res |-> res])
+Agree == (res = "ok") <=> SpecValid(ins, Eff(outs, bulk), size, cbLen)
+ReasonIsFirstViolated == res = FirstViolated(ins, Eff(outs, bulk), size, cbLen)
+EmitRow == VFRow([ins |-> ins, outs |-> [i \in 1..Len(outs) |-> Val[outs[i]]], size |-> size, cbLen |-> cbLen, res |-> res, bulk |-> bulk])
 ====
